@@ -7,6 +7,7 @@ import (
 	"math"
 	"math/big"
 	"os"
+	"strings"
 	"testing"
 
 	"github.com/golang/protobuf/proto"
@@ -229,6 +230,12 @@ func runPtx(nm *hx.NodeMachine, spec *hx.TxSpec, c *hx.Collector, fs *hx.Finding
 		return nil
 	}
 	if err := nm.PoolState().Check(tx, nm.LM.M.Blocks[nm.LM.M.Tip].Height); err != nil {
+		// the token inputs come from the generator (they may be stale for reasons of its own); the READ SET comes from
+		// the real pre-execution on the live state: a read that is not at the model's current version is a wrong
+		// answer of the node (e.g. a stale or mis-filled version cache after a restart)
+		if strings.Contains(err.Error(), "key ") {
+			return fmt.Errorf("the read set returned by the real pre-execution is not current: %v; transaction %s", err, hx.DescribeTx(tx))
+		}
 		nm.LastOutcome = "skipped"
 		nm.Stat["generator-produced-inadmissible-spec"]++
 		return nil
